@@ -56,4 +56,5 @@ func main() {
 var genericCmds = map[string]func(common.Args, *common.Out) error{
 	"compiledet": generic.CompileDet,
 	"maprange":   extract.MapRange,
+	"c10gated":   generic.C10Gated,
 }
